@@ -1,11 +1,11 @@
 /-
 Props/C10.lean — distinfo files round-trip byte-exactly, including non-UTF-8 names.
 Property theorems only; helper lemmas live in Lemmas/.
-First pass: serialisation shape, size round trip, map invariants.  The whole-file
-round trip is stated (`C10_bytes_roundtrip`) and decided on every run by the
-correspondence oracle (strict canonical grammar) until its Lean proof lands.
+Serialisation shape, size round trip, map invariants, and both whole-file round trips:
+parse→write of a canonical file (`C10_bytes_roundtrip`) and write→parse of well-formed
+data (`C10_write_parse`); proofs in Lemmas/DistinfoRoundtrip.lean.
 -/
-import PkgsrcVerif.Lemmas.Distinfo
+import PkgsrcVerif.Lemmas.DistinfoRoundtrip
 import PkgsrcVerif.Spec.Distinfo
 open M L
 
@@ -53,10 +53,49 @@ theorem C10_insert_order (d : Distinfo) (e : Entry) :
     | none => simp [hg] at h
     | some x => simp
 
-/-- The property at full strength. -/
-def C10_bytes_roundtrip : Prop :=
-  ∀ f : Bytes, S.canonicalDistinfo f = true → (distinfoFromBytes f).asBytes = f
+/-- **Parse → write, byte for byte.**  A file in canonical layout — the rendering of
+    well-formed block data: RCS Id line (any bytes after `$NetBSD: `, or the unexpanded
+    `$NetBSD$`), blank line, one block per distfile (checksum lines, then the Size line), one
+    block per patch (checksum lines only); names of any non-blank bytes, UTF-8 or not, pairwise
+    different files; hashes blank-free UTF-8; sizes up to u64::MAX — is reproduced exactly by
+    `Distinfo::from_bytes` followed by `as_bytes`. -/
+theorem C10_bytes_roundtrip (f : Bytes) (h : S.canonicalDistinfo f = true) :
+    (distinfoFromBytes f).asBytes = f := by
+  unfold S.canonicalDistinfo at h
+  cases hp : S.parseCanon f with
+  | none => simp [hp] at h
+  | some cf =>
+    simp only [hp, Bool.and_eq_true, beq_iff_eq] at h
+    have hok := fileOk_of_wf cf h.1
+    rw [← h.2, fromBytes_render cf hok, asBytes_distinfo cf hok]
+
+/-- **Write → parse.**  Conversely, for the Distinfo a well-formed block list denotes (RCS Id,
+    files in order, each with its checksums in order and its size), writing it and parsing the
+    result yields the same Distinfo — same Id, same files in the same order, same checksums in
+    order, same sizes. -/
+theorem C10_write_parse (cf : S.CFile) (h : cf.wf = true) :
+    distinfoFromBytes cf.distinfo.asBytes = cf.distinfo := by
+  have hok := fileOk_of_wf cf h
+  rw [asBytes_distinfo cf hok, fromBytes_render cf hok]
+
+/-- what the data denotes: the maps list exactly the blocks, in order -/
+theorem C10_data_shape (cf : S.CFile) :
+    cf.distinfo.distfiles.map (·.1) = cf.dists.map (·.name) ∧
+    cf.distinfo.patchfiles.map (·.1) = cf.patches.map (·.name) ∧
+    (∀ b ∈ cf.dists, (b.name, b.entry .distfile) ∈ cf.distinfo.distfiles) := by
+  refine ⟨by simp [S.CFile.distinfo], by simp [S.CFile.distinfo], ?_⟩
+  intro b hb
+  simp only [S.CFile.distinfo, List.mem_map]
+  exact ⟨b, hb, rfl⟩
 
 /-- non-vacuity: the doc-comment example file is canonical -/
 example : S.canonicalDistinfo (ascii "$NetBSD: distinfo,v 1.1 2024/01/01 00:00:00 x Exp $\n\nBLAKE2s (foo-1.0.tar.gz) = aa\nSHA512 (foo-1.0.tar.gz) = bb\nSize (foo-1.0.tar.gz) = 42 bytes\nSHA1 (patch-aa) = cc\n") = true := by
+  decide +kernel
+
+/-- non-vacuity with the awkward bytes the property names: a file name with a lone 0xE9 (invalid
+    UTF-8), one containing 0xA0 and 0x85, an Id with a Latin-1 byte and a trailing blank, a size
+    of u64::MAX — canonical, hence covered by the theorem -/
+example : S.canonicalDistinfo
+    (ascii "$NetBSD: j" ++ [0xF6] ++ ascii "rg Exp $ \n\nSHA1 (lone" ++ [0xE9] ++ ascii ".tgz) = aa\nSize (lone" ++ [0xE9] ++
+     ascii ".tgz) = 18446744073709551615 bytes\nMD5 (patch-" ++ [0xC3, 0xA0, 0xC3, 0x85] ++ ascii ") = bb\n") = true := by
   decide +kernel
